@@ -66,7 +66,7 @@ Proof.
         destruct (ds_write_prefix (weq (vm_eq v)) (vm_dup v) (nth k (st_srcs st) []) es) as (w & -> & _). eauto.
       * rewrite nth_upd_neq by congruence. exists []. now rewrite app_nil_r.
     + rewrite upd_ge by assumption. exists []. now rewrite app_nil_r.
-  - destruct (run_job v st r) as [st' o] eqn:H. cbn [fst]. rewrite (run_srcs _ _ _ _ _ H).
+  - destruct (run_any v st r) as [st' o] eqn:H. cbn [fst]. rewrite (run_any_srcs _ _ _ _ _ H).
     apply prefixK_refl.
 Qed.
 
@@ -221,17 +221,17 @@ Proof.
 Qed.
 
 (** what is known about the state when the previous operation was a run *)
-Definition prev_link (st : state) (prev : option trun) : Prop :=
+Definition prev_link (shl : bool) (st : state) (prev : option trun) : Prop :=
   match prev with
   | None => True
-  | Some p => obs_of st p /\ (tr_out p = 0%N -> at_end (st_srcs st) (st_tok st))
+  | Some p => obs_of st p /\ (tr_out p = 0%N -> at_end (st_srcs st) (st_tok st)) /\ tr_full p && shl = false
   end.
 
 Lemma agree_ops_spec owner n c : forall ops st stf prev last,
   good owner n st -> orig owner (st_srcs st) (st_sink st) ->
   Forall (wf_op owner n) (ops_of c true ops) ->
-  agree_ops v_fixed c true st ops = (true, stf) -> prev_link st prev ->
-  spec_ops (st_srcs stf) prev false true last ops = true.
+  agree_ops v_fixed c true st ops = (true, stf) -> prev_link (shl_of c) st prev ->
+  spec_ops (shl_of c) (st_srcs stf) prev false true last ops = true.
 Proof.
   induction ops as [|o ops IH]; intros st stf prev last Hg Ho Hwf H Hlink; [reflexivity|].
   cbn [agree_ops] in H. cbn [ops_of] in Hwf. inversion Hwf as [|? ? Hwo Hops]; subst.
@@ -247,6 +247,10 @@ Proof.
   - apply (IH st' stf' None); auto; exact I.
   - apply (IH st' stf' None); auto; exact I.
   - cbn [op_of step] in Hstep, Hwo.
+    assert (Hem : tr_full r && shl_of c = false).
+    { pose proof (proj2 (proj2 (proj2 (proj2 Hwo)))) as E. unfold entities_mode in E.
+      cbn [rcfg_of r_full r_sinkhttp r_union r_los] in E. unfold shl_of. now rewrite andb_assoc. }
+    unfold run_any in Hstep. rewrite (proj2 (proj2 (proj2 (proj2 Hwo)))) in Hstep.
     destruct (run_job v_fixed st (rcfg_of c true r)) as [st1 o1] eqn:Hrun. injection Hstep as -> <-.
     destruct (run_agree_obs _ _ _ Hok) as (Hobs & o & [= <-] & Hcode).
     assert (Hconv : tr_out r = 0%N -> converged st' /\ (tr_full r = true -> foreign_deleted st')).
@@ -254,17 +258,18 @@ Proof.
       destruct (run_ok_converged owner n v_fixed eq_refl st _ st' Hg Hwo Hrun) as (C & _ & F).
       split; [exact C | exact F]. }
     apply andb_true_iff. split.
-    + unfold run_spec. cbn [orb andb]. rewrite andb_true_r.
+    + unfold run_spec. rewrite Hem. cbn [orb andb]. rewrite andb_true_r.
       apply andb_true_iff. split; [apply andb_true_iff; split; [apply andb_true_iff; split|]|].
       * eapply run_safe_spec_of; [apply Hg' | exact Hp | exact Hok].
       * unfold run_conv_spec. destruct (N.eqb (tr_out r) 0) eqn:E0; [|reflexivity].
         apply N.eqb_eq in E0. destruct (Hconv E0) as [C F]. now apply conv_spec_of with st'.
       * unfold run_idem_spec. destruct prev as [p|]; [|reflexivity].
+        rewrite (proj2 (proj2 Hlink)). cbn [negb andb].
         destruct (N.eqb (tr_out p) 0 && zlist_eqb (tr_srclens p) (tr_srclens r) && negb (tr_full r)) eqn:Cnd;
           [|reflexivity].
         apply andb_true_iff in Cnd. destruct Cnd as [Cnd Hnf]. apply andb_true_iff in Cnd. destruct Cnd as [Hpo _].
         apply N.eqb_eq in Hpo. apply negb_true_iff in Hnf.
-        destruct Hlink as [(Hv1 & Ht1 & _ & Hs1) Hend]. specialize (Hend Hpo).
+        destruct Hlink as [(Hv1 & Ht1 & _ & Hs1) [Hend _]]. specialize (Hend Hpo).
         destruct (run_idem_any owner n v_fixed st (rcfg_of c true r) Hend (proj1 Hg) Hwo Hnf) as (o2 & Hrun2).
         rewrite Hrun in Hrun2. injection Hrun2 as -> _.
         destruct Hobs as (Hv2 & Ht2 & _ & Hs2).
@@ -273,7 +278,7 @@ Proof.
         -- apply zlist_eqb_eq. congruence.
         -- apply Z.eqb_eq. congruence.
       * eapply origin_spec_of; [apply Hg' | exact Ho' | exact Hp | exact Hobs].
-    + apply (IH st' stf' (Some r)); auto. split; [exact Hobs|].
+    + apply (IH st' stf' (Some r)); auto. split; [exact Hobs|]. split; [|exact Hem].
       intros E. destruct (Hconv E) as [[Hl Hc] _]. split; [exact Hl|]. intros k Hk. now apply Hc.
   - destruct Hwo.
   - apply (IH st' stf' None); auto; exact I.
